@@ -92,6 +92,7 @@ type FuncSpec struct {
 	AtCalls  []*AtCall
 	Decr     *Clause
 	Pure     bool // assumed: results are a deterministic function of args (and nothing else)
+	Closed   bool // every function called from the body must have a contract (an uncontracted external call is an obligation that fails)
 	File     string
 	Line     int
 }
@@ -139,7 +140,7 @@ func NewSpecs() *Specs {
 
 var trailingComment = regexp.MustCompile(`\s{2,}#.*$`)
 
-var kwRe = regexp.MustCompile(`^(requires|ensures|invariant|decreases|assert|modifies|loop|at-call|func|assumed|fun|axiom|define|opaque|stable|hidden|reveal|ghost|sort|pure|sets|after|before|lemma|assume)\b(\[[^\]]*\])?\s*(.*)$`)
+var kwRe = regexp.MustCompile(`^(requires|ensures|invariant|decreases|assert|modifies|loop|at-call|func|assumed|fun|axiom|define|opaque|stable|hidden|reveal|ghost|sort|pure|closed|sets|after|before|lemma|assume)\b(\[[^\]]*\])?\s*(.*)$`)
 
 type rawItem struct {
 	kw, tags, rest string
@@ -321,6 +322,11 @@ func (s *Specs) LoadFile(path string, commentPrefix string) error {
 				return perr(it, "pure outside func")
 			}
 			cur.Pure = true
+		case "closed":
+			if cur == nil {
+				return perr(it, "closed outside func")
+			}
+			cur.Closed = true
 		case "sets":
 			if cur == nil {
 				return perr(it, "sets outside func")
